@@ -396,6 +396,17 @@ func (sb *SegmentBase) InterpretVectorIndex(field string, requiresFiltering bool
 					addIDsToPostingsList(rv, ids, scores)
 					return rv, nil
 				}
+				// the eligible set is the caller's and may name documents of the
+				// exclusion bitmap: those stay excluded
+				if except != nil && !except.IsEmpty() {
+					liveEligible := make([]uint64, 0, len(eligibleDocIDs))
+					for _, id := range eligibleDocIDs {
+						if !except.Contains(uint32(id)) {
+							liveEligible = append(liveEligible, id)
+						}
+					}
+					eligibleDocIDs = liveEligible
+				}
 				// vector IDs corresponding to the local doc numbers to be
 				// considered for the search
 				vectorIDsToInclude := make([]int64, 0, len(eligibleDocIDs))
